@@ -128,6 +128,8 @@ class Gen:
 
     def new_input(self, shape: tuple[int, ...], dtype: str, pool: str = "dyadic",
                   data: Any = None, kind: str | None = None) -> int:
+        if self.nan and np.dtype(dtype).kind == "c":
+            raise Reject("complex values are outside the NaN-aware fragment")
         i = self.next_id
         self.next_id += 1
         if kind is None:
@@ -230,6 +232,8 @@ class Gen:
     def validate(self, r: np.ndarray, op: str) -> None:
         if r.dtype.name not in DT6:
             raise Reject(f"dtype {r.dtype}")
+        if self.nan and r.dtype.kind == "c":
+            raise Reject("complex values are outside the NaN-aware fragment")
         if r.ndim > MAX_NDIM or r.size > MAX_SIZE or any(s > 12 for s in r.shape):
             raise Reject("too big")
         if r.dtype.kind in "iu":
